@@ -93,8 +93,18 @@ def run_server(cfg, strategy, max_steps=30000):
 
     vthreading = vprims.make_threading_ns()
 
+    nf_waiting = set()
+
     class NotFull(vprims.LCondition):
         logname = 'notfull'
+
+        def wait(self, timeout=None):
+            me = S.me()
+            nf_waiting.add(me)
+            try:
+                return super().wait(timeout)
+            finally:
+                nf_waiting.discard(me)
 
     vthreading.Condition = NotFull
     qnames = iter(['q_in', 'q_out'])
@@ -188,7 +198,20 @@ def run_server(cfg, strategy, max_steps=30000):
             if n > stats['backlog_max']:
                 stats['backlog_max'] = n
 
+    def on_quiescent(S_):
+        # nothing can run until a timer fires, so no notification is under way; a caller still waiting for a
+        # slot while the backlog is below capacity has lost its wake-up
+        led = stats['ledger']
+        if led is None or stats.get('lost_wakeup'):
+            return
+        n = led.raw_len()
+        if n < cfg['capacity']:
+            ws = sorted(t.name for t in nf_waiting if t.state == 'blocked')
+            if ws:
+                stats['lost_wakeup'] = {'waiting': ws, 'backlog': n, 'clock': S.clock}
+
     S.observers.append(observe)
+    S.quiescent_observers.append(on_quiescent)
     extra = [
         (_server, 'threading', vthreading),
         (_server, 'queue', vqueue),
@@ -205,7 +228,7 @@ def run_server(cfg, strategy, max_steps=30000):
     res.update({'verdict': S.verdict or 'ok', 'blocked': S.blocked_at_end, 'leaked': S.leaked, 'steps': S.steps,
                 'error': S.error, 'decisions': S.decisions, 'outcomes': outcomes, 'backlog_max': stats['backlog_max'],
                 'waited': {str(k): v for k, v in stats['waited'].items()}, 'final_backlog': stats['final_backlog'],
-                'gather_alive_after_calls': stats.get('gather_alive_after_calls')})
+                'gather_alive_after_calls': stats.get('gather_alive_after_calls'), 'lost_wakeup': stats.get('lost_wakeup')})
     return res
 
 
@@ -303,7 +326,32 @@ def coq_server_case(r):
     return f"({cnat(c['capacity'])}, {callers}, {cnat(c['nworkers'])}, {fail}, {evs}, {cnat(verdict)}, {cnat(r['backlog_max'])})"
 
 
+class CancelInWindow:
+    """wraps a strategy: when the gather thread has just seen `fut.cancelled() == False` for a request whose caller
+    is waiting for the result with a deadline, let that deadline expire now (with probability p), so that the
+    cancel() lands between the test and set_result / set_exception"""
+
+    def __init__(self, base, rng, p=0.8):
+        self.base, self.rng, self.p = base, rng, p
+
+    def choose(self, S, cands, cur):
+        if S.log:
+            t, op, obj, val = S.log[-1]
+            if op == 'fut_cancelled' and not val and t.startswith('Server._gather_output') and obj is not None:
+                for i, (th, fire) in enumerate(cands):
+                    if fire and th.name == f'caller-{obj}' and self.rng.random() < self.p:
+                        return i
+        return self.base.choose(S, cands, cur)
+
+
 def make_strategy(rng, cfg):
+    kind, st = make_strategy0(rng, cfg)
+    if cfg.get('timers_adversarial') and rng.random() < 0.4:
+        return kind + '+cancel-in-window', CancelInWindow(st, rng)
+    return kind, st
+
+
+def make_strategy0(rng, cfg):
     kind = rng.choice(['random', 'random', 'pct', 'greedy', 'greedy-flip'])
     if kind == 'random':
         return kind, detsched.RandomStrategy(rng, timer_p=rng.choice([0.0, 0.05, 0.2]) if cfg.get('timers_adversarial') else 0.0)
